@@ -95,6 +95,11 @@ class Ref:
     # -- recognition ----------------------------------------------------------
     def attr_lookup(self, node, name):
         vs = [v for k, v in node[2] if k[0] == 's' and k[2] == name]
+        if any(k[0] == 's' and k[2] == name and k[1] != TAGP + 'str'
+               for k, _ in node[2]):
+            # attribute names are strings; a key such as the int 1 spelt like
+            # the name is outside what the documentation describes
+            raise Unsupported('non-string key spelt like the attribute')
         if len(vs) > 1:
             raise Unsupported('duplicate key')
         return vs[0] if vs else None
